@@ -44,6 +44,15 @@ def run(ck):
                 p[k] = rng.uniform(1.5, N / 12)
         cases.append({"renderer": ["fourier", "hybrid", "pixel"][i % 3], "N": N, "profile": T, "params": p, "psf_seed": rng.randint(0, 10**6),
                       "shift": [rng.randint(-3, 3), rng.randint(-3, 3)]})
+    for i in range(1 if quick else 6):
+        N = rng.choice([42, 48])
+        T = ["sersic", "sersic_exp", "doublesersic", "exp"][i % 4]
+        p = rand_params(rng, T, N)
+        p["flux"] = abs(p["flux"])
+        for k in p:
+            if k.startswith("r_eff"):
+                p[k] = rng.uniform(1.2, 3.0)
+        cases.append({"renderer": "hybrid8", "N": N, "profile": T, "params": p, "psf_seed": rng.randint(0, 10**6), "shift": [rng.randint(-3, 3), rng.randint(-3, 3)]})
     ck.log("implementation: %d transformed-input rendering pairs" % len(cases))
     import concurrent.futures as cf
     nsh = min(6, vlib.NCPU)
